@@ -75,7 +75,7 @@ def run_selection(ctx, case, faults=False):
     def go(nproc, cutoff, faults_on):
         mpmodel.SCHED.reset(K=case.get('K', 0), faults=faults_on,
                             fault_modes=case.get('fault_modes'),
-                            fault_steps=1)
+                            fault_steps=case.get('fault_steps', 1))
         try:
             with warnings.catch_warnings():
                 warnings.simplefilter('ignore')
@@ -95,6 +95,88 @@ def run_selection(ctx, case, faults=False):
             (nproc, cutoff) != (1, 1000000):
         res['base'], res['base_raised'] = go(1, 1000000, False)
     return res
+
+
+LK = {}
+
+
+def lookup_files():
+    """reference-marker file carrying its metadata record, the statistics
+    file it names, and the reference answer: built once per job"""
+    if LK:
+        return LK
+    import h5py
+    import json
+    import cell_type_mapper.type_assignment.marker_cache_v2 as MC
+    st = marker_file()
+    root = os.path.join(sandbox_root(), 'lookup')
+    shutil.rmtree(root, ignore_errors=True)
+    for d in ('stats_dir', 'marker_dir', 'scratch', 'keep'):
+        os.makedirs(os.path.join(root, d))
+    recorded = os.path.join(root, 'stats_dir', 'precomputed_stats.h5')
+    kept = os.path.join(root, 'keep', 'right_stats.h5')
+    stale = os.path.join(root, 'keep', 'stale_stats.h5')
+    RM.build_stats(kept, {lf: 3 for lf in RM.LEAVES})
+    # an earlier run of the pipeline on another taxonomy left this
+    RM.build_stats(stale, {lf: 3 for lf in RM.LEAVES},
+                   klass={'c0': 'A', 'c1': 'B', 'c2': 'A', 'c3': 'B',
+                          'c4': 'A'})
+    mpath = os.path.join(root, 'marker_dir', 'reference_markers.h5')
+    shutil.copy(st['path'], mpath)
+    with h5py.File(mpath, 'a') as f:
+        f.create_dataset('metadata', data=json.dumps(
+            {'precomputed_path': recorded}).encode('utf-8'))
+    LK.update(root=root, recorded=recorded, kept=kept, stale=stale,
+              marker=mpath,
+              neighbour=os.path.join(root, 'marker_dir',
+                                     'precomputed_stats.h5'))
+    saved = getattr(core.CUR, '_mp_epoch', 0)
+    shutil.copy(kept, recorded)
+    LK['base'] = _lookup(1, False)[0]
+    if core.CUR is not None:
+        core.CUR._mp_epoch = saved
+    return LK
+
+
+def _lookup(nproc, search, K=0):
+    import cell_type_mapper.type_assignment.marker_cache_v2 as MC
+    mpmodel.SCHED.reset(K=K)
+    try:
+        with warnings.catch_warnings():
+            warnings.simplefilter('ignore')
+            out = MC.create_marker_gene_lookup_from_ref_list(
+                reference_marker_path_list=[LK['marker']],
+                query_gene_names=['q_only_gene'] + list(RM.GENES),
+                n_per_utility=1, n_per_utility_override=None,
+                n_processors=nproc, behemoth_cutoff=5000000,
+                tmp_dir=os.path.join(LK['root'], 'scratch'),
+                search_for_stats_file=search)
+        return out, None
+    except Exception as e:
+        return None, e
+
+
+def run_lookup(ctx, case):
+    """query-marker stage from the reference-marker file list: which
+    statistics file it consults"""
+    lk = lookup_files()
+    for p in (lk['recorded'], lk['neighbour']):
+        if os.path.exists(p):
+            os.unlink(p)
+    at_recorded = ctx.flag('statistics_file_still_at_recorded_path')
+    if at_recorded:
+        shutil.copy(lk['kept'], lk['recorded'])
+    nb = ['nothing', 'right', 'stale'][ctx.choice(
+        'same_named_file_next_to_marker_file', 3)]
+    if nb != 'nothing':
+        shutil.copy(lk['kept'] if nb == 'right' else lk['stale'],
+                    lk['neighbour'])
+    search = ctx.flag('search_for_stats_file')
+    nproc = 1 + ctx.choice('n_processors-1', 2)
+    out, raised = _lookup(nproc, search, K=case.get('K', 0))
+    return {'out': out, 'raised': raised, 'at_recorded': at_recorded,
+            'neighbour': nb, 'search': search, 'base': lk['base'],
+            'scratch': os.path.join(lk['root'], 'scratch')}
 
 
 def check_selection(ctx, res):
